@@ -1077,23 +1077,27 @@ LOOP:
 				continue LOOP
 			}
 			if len(l.src) > 1 && l.src[1] == '*' {
-				l.src = l.src[2:]
-				p := bytes.Index(l.src, []byte("*/"))
+				p := bytes.Index(l.src[2:], []byte("*/"))
 				if p == -1 {
 					return l.errorf("comment not terminated")
 				}
-				nl := bytes.IndexAny(l.src[:p], "\n"+string(BOM))
-				if nl >= 0 && l.src[nl] != '\n' {
+				comment := l.src[:p+4]
+				nl := bytes.IndexAny(comment, "\n"+string(BOM))
+				if nl >= 0 && comment[nl] != '\n' {
 					return l.errorf(bomErrorMsg)
 				}
-				l.src = l.src[p+2:]
-				if nl >= 0 {
-					if endLineAsSemicolon {
-						l.emit(tokenSemicolon, 0)
-						endLineAsSemicolon = false
-					}
-					l.newline()
+				if nl >= 0 && endLineAsSemicolon {
+					l.emit(tokenSemicolon, 0)
+					endLineAsSemicolon = false
 				}
+				for _, c := range comment {
+					if c == '\n' {
+						l.newline()
+					} else if isStartChar(c) {
+						l.column++
+					}
+				}
+				l.src = l.src[p+4:]
 				continue LOOP
 			}
 			if len(l.src) > 1 && l.src[1] == '=' {
